@@ -433,7 +433,9 @@ func classify(c scen.Case, f *harn.Failure) string {
 }
 
 var opts = scen.GenOpts{
-	World:    world.Opts{MaxFlows: 3, MaxNodes: 5, QueryGroups: true, Languages: []string{"fra"}, Voice: true, Background: true, NoVariableRefs: true, WebhookRefs: true, TranslateMissing: true},
+	World: world.Opts{MaxFlows: 3, MaxNodes: 5, QueryGroups: true, Languages: []string{"fra"}, Voice: true, Background: true, NoVariableRefs: true, WebhookRefs: true, TranslateMissing: true, WaitHeavy: true,
+		// the asset-touching actions that uniform drawing leaves thin (tickets with topic and assignee, optins, classifiers, airtime, channels, labels, templates)
+		ActionBias: []string{"open_ticket", "request_optin", "call_classifier", "transfer_airtime", "set_contact_channel", "add_input_labels", "send_msg", "add_contact_groups", "call_resthook"}},
 	Refresh:  false,
 	Restarts: true,
 	MaxSteps: 6,
